@@ -152,6 +152,11 @@ pub fn parse_states_section(input: &ParseBuffer<'_>) -> Result<ParsedStates> {
             // Parse a superstate block
             let superstate_name: Ident = input.parse()?;
 
+            // Superstate names share the namespace of state names
+            if !seen.insert(superstate_name.to_string()) {
+                return Err(syn::Error::new(superstate_name.span(), "duplicate state"));
+            }
+
             // Check for optional data type
             let superstate_ty = if input.peek(syn::token::Paren) {
                 let ty_content;
@@ -299,6 +304,11 @@ pub fn parse_superstate_block(
             "superstate" => {
                 // Parse a nested superstate
                 let nested_name: Ident = content.parse()?;
+
+                // Superstate names share the namespace of state names
+                if !seen.insert(nested_name.to_string()) {
+                    return Err(syn::Error::new(nested_name.span(), "duplicate state"));
+                }
 
                 // Check for optional data type
                 let super_data_ty = if content.peek(syn::token::Paren) {
